@@ -64,7 +64,7 @@ def run(pids):
     for d in dirs:
         meta = json.load(open(os.path.join(d, "meta.json")))
         pid = meta["property"]
-        if pids and pid not in pids:
+        if pids and pid not in pids and os.path.basename(d) not in pids:
             continue
         r = sh("git -C %s apply %s" % (WT, os.path.join(d, "patch.diff")))
         if r.returncode:
